@@ -2613,7 +2613,8 @@ int32 parseCertificateRequest(ssl_t *ssl,
         while (len > 2)
         {
             certLen = GETSHORT(c); c += 2;
-            if (certLen == 0 || (end - c) < certLen || certLen > len)
+            /* len still includes the two length octets just consumed */
+            if (certLen == 0 || (end - c) < certLen || certLen > len - 2)
             {
                 ssl->err = SSL_ALERT_DECODE_ERROR;
                 psTraceErrr("Invalid CertificateRequest message " \
